@@ -42,7 +42,9 @@ def events(seed=0):
     for trip in order:
         text = trip if rnd.random() < 0.5 else trip.lower()
         c = Codon(text)
-        tt = [c.is_start_codon_in_specific_translation_table(t) for t in
+        # the table is an IntEnum: half the questions name it by its NCBI number, which is the same table
+        byint = rnd.random() < 0.5
+        tt = [c.is_start_codon_in_specific_translation_table(int(t) if byint else t) for t in
               (TranslationTable.DEFAULT, TranslationTable.STANDARD, TranslationTable.PROKARYOTE)]
         ev.append(["codon", list(trip), c.translate(strict=True), c.translate(strict=False), c.is_stop_codon,
                    c.is_strict_codon, c.is_canonical_start_codon, tt,
